@@ -506,6 +506,46 @@ func (c *Ctx) lengthsOf(fnName string) {
 			}
 		}
 		if set == nil {
+			// handed to an unexported helper that sets the length of the branches it is given
+			for _, s := range cr.blk {
+				if s.Pos() < cr.pos {
+					continue
+				}
+				for _, call := range callsIn(s, false) {
+					g := calleeOf(info, call)
+					if g == nil || g.Exported() || g.Pkg() != fi.Obj.Pkg() || set != nil {
+						continue
+					}
+					passed := false
+					for _, a := range call.Args {
+						if identObj(info, a) == cr.obj {
+							passed = true
+						}
+					}
+					if !passed {
+						continue
+					}
+					gi := c.FuncOfObj(g)
+					if gi == nil || gi.Decl.Body == nil {
+						continue
+					}
+					ginfo := gi.Pkg.TypesInfo
+					// the helper's SetLength calls on an Edge parameter or on the elements of a variadic one
+					for _, c2 := range callsIn(gi.Decl.Body, false) {
+						if fv, ok := c.settersOf(ginfo, c2); ok && fv == "length" {
+							if conds, okc := c.pathConds(info, &ast.BlockStmt{List: cr.blk, Lbrace: cr.blk[0].Pos(), Rbrace: cr.blk[len(cr.blk)-1].End()}, call, false); okc && len(conds) == 0 {
+								if gc, okg := c.pathConds(ginfo, gi.Decl.Body, c2, true); okg && len(gc) == 0 {
+									c.lengthArg(ginfo, key, c2, clause)
+									set = c2
+								}
+							}
+						}
+					}
+				}
+			}
+			if set != nil {
+				continue
+			}
 			c.Violation("LENGTH", key, cr.pos, "the "+cr.what+" ("+cr.obj.Name()+") never receives a length in the block that creates it: it keeps the 'absent' sentinel -1 (a negative length) or, for the split branch, its old full length").Clause = clause
 			continue
 		}
